@@ -10,7 +10,7 @@ git -C /repo worktree add -q --detach $wt HEAD || exit 2
 git -C $wt apply /verif/seeded/$sid/patch.diff || { echo "patch does not apply"; git -C /repo worktree remove --force $wt; exit 2; }
 rm -rf $vs; mkdir -p $vs
 rsync -a --exclude .git --exclude bin --exclude replays --exclude evidence --exclude seeded /verif/ $vs/
-VERIF_REPO=$wt VERIF_DIR=$vs /verif/bin/vcheck run $prop --tier $tier "$@" > /tmp/seedrun_$sid.log 2>&1; rc=$?
+VERIF_REPO=$wt VERIF_DIR=$vs ${VCHECK_BIN:-/verif/bin/vcheck} run $prop --tier $tier "$@" > /tmp/seedrun_$sid.log 2>&1; rc=$?
 grep -E '^VIOLATION|^KNOWN|^INCONCLUSIVE|exit=' /tmp/seedrun_$sid.log | cut -c1-260 | head -12
 grep -A1 '^VIOLATION' /tmp/seedrun_$sid.log | grep '^  ' | cut -c1-200 | sort | uniq -c | head -8
 echo "SEEDRUN-WT sid=$sid prop=$prop tier=$tier exit=$rc"
